@@ -18,9 +18,24 @@ for m in sorted(glob.glob(os.path.join(ROOT, "seeded", "*", "meta.json"))):
     res = "; ".join("%s: %s%s" % (k, v["verdict"], (" (" + ", ".join(s.replace("signature: ", "") for s in v["signatures"][:2]) + ")") if v["signatures"] else "") for k, v in c.get("checks", {}).items())
     srows.append("| %s | %s | %s | %s | %s |" % (name, d.get("property"), (d.get("title") or "").replace("|", "/")[:150], (d.get("needs") or "").replace("|", "/").replace("\n", " ")[:220], res))
 seeded = "| seeded change | breaks | what it is | what it needs to manifest | checks run against it |\n|---|---|---|---|---|\n" + "\n".join(srows)
+arows = []
+man = json.load(open(os.path.join(ROOT, "MANIFEST.json")))
+for c in man["checks"]:
+    i = c["property_id"]
+    try:
+        ev = json.load(open(os.path.join(ROOT, "evidence", i + ".json")))
+        cov = ev["coverage"]
+        counts = "%s: %d cases, %d distinct non-trivial, %.0f s" % (ev["tier"], cov["evaluations"], cov["distinct_nontrivial"], ev["wall_s"])
+    except Exception:
+        counts = "—"
+    nfix = sum(1 for f in kf if f["property"] == i and f["status"] == "fixed")
+    nknown = sum(1 for f in kf if f["property"] == i and f["status"] == "known")
+    nseed = sum(1 for m in glob.glob(os.path.join(ROOT, "seeded", "*", "meta.json")) if json.load(open(m)).get("property") == i)
+    arows.append("| %s | %s | %s | %d fixed%s | %d |" % (i, c["level_claimed"]["category"], counts, nfix, (", %d known" % nknown) if nknown else "", nseed))
+asbuilt = "| property | level | last committed evidence | findings | seeded changes |\n|---|---|---|---|---|\n" + "\n".join(arows)
 p = os.path.join(ROOT, "DESIGN.md")
 s = open(p).read()
-for tag, body in (("FINDINGS", findings), ("SEEDED", seeded)):
+for tag, body in (("FINDINGS", findings), ("SEEDED", seeded), ("ASBUILT", asbuilt)):
     b, e = "<!-- BEGIN GENERATED %s -->" % tag, "<!-- END GENERATED %s -->" % tag
     if b in s:
         s = s[:s.index(b) + len(b)] + "\n" + body + "\n" + s[s.index(e):]
